@@ -2,4 +2,6 @@ import ArroyProofs.AuditCmd
 import ArroyProofs.Properties.C14
 import ArroyProofs.Properties.Unconditional
 import ArroyProofs.Properties.Reachable
+import ArroyProofs.Properties.C14Fair
+import ArroyProofs.Properties.C14FairBuild
 #audit Arroy.C14
